@@ -427,7 +427,7 @@ def unit_train_epoch(S):
             Kj = te[0].operands[2].scalar()
             j2 = z3.Int("j_other")
             Kj2 = z3.substitute(Kj, (j, j2))
-            S.prove("train/epoch-key-fresh", ctx2, z3.And(z3.BoolVal(term_contains(Kj, kc2)), Kj != Kj2), hyps=[j >= 0, j < NEz, j2 >= 0, j2 < NEz, j != j2] + kit.rng_index_injective(ctx2), function=F_T,
+            S.prove("train/epoch-key-fresh", ctx2, z3.And(z3.BoolVal(term_contains(Kj, kc2)), Kj != Kj2), hyps=[j >= 0, j < NEz, j2 >= 0, j2 < NEz, j != j2] + kit.rng_ground_injectivity([Kj, Kj2]), function=F_T,
                     replay=native_epoch_replay, what="epoch j shuffles with a key derived from the update's key and j, and different epochs get different keys (A-RNG: split / fold_in injective in the index), however the key is derived: a fresh shuffle every epoch")
             S.prove("train/every-epoch-sees-the-whole-buffer", ctx2, sand(*[kit.arr_eq_at(a, b, ()) for a, b in zip(te[0].operands[3:], kit.leaves(buf2))]), hyps=[j >= 0, j < NEz], function=F_T,
                     what="every epoch visits the same collected data (the buffer is passed unchanged)")
